@@ -35,50 +35,61 @@
 (*    sample (2^lgHi <= SampleSize).                                       *)
 (***************************************************************************)
 EXTENDS Naturals, FiniteSets, Sequences, TLC
-CONSTANTS Ids, Items, Weights, LgMaxs, MaxTotal   \* bounds used only by Next (model checking)
+CONSTANTS Ids, Items, Weights, LgMaxs, MaxTotal,  \* bounds used only by Next (model checking)
+          WideNums      \* FALSE: weights, counters, offset and total are TLC integers (< 2^31).  TRUE: they are exact wide naturals
+                        \* (module WideNum: 4 limbs of 20 bits), for traces with 64-bit weights (TraceFreqItemsW.cfg)
 VARIABLE obj
 vars == <<obj>>
+INSTANCE WideNum
+NZero == IF WideNums THEN WZero ELSE 0
+NAdd(a, b) == IF WideNums THEN WAdd(a, b) ELSE a + b
+NLeq(a, b) == IF WideNums THEN WLeq(a, b) ELSE a <= b
+NLt(a, b) == IF WideNums THEN WLt(a, b) ELSE a < b
+NMax(a, b) == IF NLeq(a, b) THEN b ELSE a
 
 LgSample == 10       \* purge sample size 1024 = 2^10 (documented: "map sizes up to the purge sample size")
 
 Live == DOMAIN obj
-Get(f, x) == IF x \in DOMAIN f THEN f[x] ELSE 0
-Add(f, x, w) == IF x \in DOMAIN f THEN [f EXCEPT ![x] = @ + w] ELSE f @@ (x :> w)
-Plus(f, g) == [x \in DOMAIN f \cup DOMAIN g |-> Get(f, x) + Get(g, x)]
+Get(f, x) == IF x \in DOMAIN f THEN f[x] ELSE NZero
+Add(f, x, w) == IF x \in DOMAIN f THEN [f EXCEPT ![x] = NAdd(@, w)] ELSE f @@ (x :> w)
+Plus(f, g) == [x \in DOMAIN f \cup DOMAIN g |-> NAdd(Get(f, x), Get(g, x))]
 Min2(a, b) == IF a <= b THEN a ELSE b
 Max2(a, b) == IF a >= b THEN a ELSE b
 
 \* the answers of the API as functions of the abstract state
 Lb(o, x)  == Get(o.cnt, x)
-Ub(o, x)  == Get(o.cnt, x) + o.offset
+Ub(o, x)  == NAdd(Get(o.cnt, x), o.offset)
 MaxErr(o) == o.offset
 \* documented result sets of get_frequent_items (frequent_items_error_type)
-FreqNFN(o, thr) == {x \in DOMAIN o.cnt : o.cnt[x] + o.offset > thr}
-FreqNFP(o, thr) == {x \in DOMAIN o.cnt : o.cnt[x] > thr}
+FreqNFN(o, thr) == {x \in DOMAIN o.cnt : NLt(thr, NAdd(o.cnt[x], o.offset))}
+FreqNFP(o, thr) == {x \in DOMAIN o.cnt : NLt(thr, o.cnt[x])}
 
-Fresh(lg) == [lgMax |-> lg, lgLo |-> lg, lgHi |-> lg, cnt |-> <<>>, offset |-> 0, total |-> 0, truth |-> <<>>]
+Fresh(lg) == [lgMax |-> lg, lgLo |-> lg, lgHi |-> lg, cnt |-> <<>>, offset |-> NZero, total |-> NZero, truth |-> <<>>]
 
 \* ---- the clauses of the statement, per object ------------------------------------------
 \* lower bound <= true weight <= upper bound for EVERY item, tracked or not
 Bracket(o) ==
-  /\ \A x \in DOMAIN o.cnt : /\ o.cnt[x] >= 1
-                             /\ o.cnt[x] <= Get(o.truth, x)
-                             /\ Get(o.truth, x) <= o.cnt[x] + o.offset
-  /\ \A x \in DOMAIN o.truth : x \notin DOMAIN o.cnt => o.truth[x] <= o.offset
+  /\ \A x \in DOMAIN o.cnt : /\ NLt(NZero, o.cnt[x])
+                             /\ NLeq(o.cnt[x], Get(o.truth, x))
+                             /\ NLeq(Get(o.truth, x), NAdd(o.cnt[x], o.offset))
+  /\ \A x \in DOMAIN o.truth : x \notin DOMAIN o.cnt => NLeq(o.truth[x], o.offset)
 \* maximum error <= epsilon * total weight, epsilon = 3.5 / 2^lg  <=>  offset <= floor(7 total / 2^(lg+1))
-EpsOK(o) == o.lgHi <= LgSample => o.offset <= (7 * o.total) \div (2^(o.lgLo + 1))
+\*                                                                   <=>  offset * 2^(lg+1) <= 7 total  (wide form)
+EpsOK(o) == o.lgHi <= LgSample =>
+  IF WideNums THEN WLeq(WMulSmall(o.offset, 2^(o.lgLo + 1)), WMulSmall(o.total, 7))
+  ELSE o.offset <= (7 * o.total) \div (2^(o.lgLo + 1))
 PostOK(o) == Bracket(o) /\ EpsOK(o)
 
 Init == obj = <<>>
 New(i, lg) == obj' = (i :> Fresh(lg)) @@ obj
 \* post-state of update(x, w) / merge(j) with the free outcome (rows c2, maximum error off2)
-UpdPost(o, x, w, c2, off2) == [o EXCEPT !.truth = Add(@, x, w), !.total = @ + w, !.cnt = c2, !.offset = off2]
+UpdPost(o, x, w, c2, off2) == [o EXCEPT !.truth = Add(@, x, w), !.total = NAdd(@, w), !.cnt = c2, !.offset = off2]
 MergePost(o, p, c2, off2) ==
-  [o EXCEPT !.truth = Plus(@, p.truth), !.total = @ + p.total, !.cnt = c2, !.offset = off2,
-            !.lgLo = IF p.total = 0 THEN @ ELSE Min2(@, p.lgLo),
-            !.lgHi = IF p.total = 0 THEN @ ELSE Max2(@, p.lgHi)]
+  [o EXCEPT !.truth = Plus(@, p.truth), !.total = NAdd(@, p.total), !.cnt = c2, !.offset = off2,
+            !.lgLo = IF p.total = NZero THEN @ ELSE Min2(@, p.lgLo),
+            !.lgHi = IF p.total = NZero THEN @ ELSE Max2(@, p.lgHi)]
 Update(i, x, w, c2, off2) ==
-  /\ i \in Live /\ w >= 1
+  /\ i \in Live /\ NLt(NZero, w)
   /\ LET n == UpdPost(obj[i], x, w, c2, off2)
      IN /\ PostOK(n)
         /\ obj' = [obj EXCEPT ![i] = n]
